@@ -81,6 +81,10 @@ def strat_route(draw, tier, holes=False):
     return {"machine": m, "chip_of": chip_of, "alloc": alloc,
             "endpoints": endpoints, "nets": nets,
             "radius": draw(st.sampled_from([0, 1, 2, 3, 20, None])),
+            # cores named by an identifier of the caller's own, passed as
+            # the documented core_resource= option
+            "core_resource": draw(st.sampled_from([None, None, None,
+                                                   "my cores"])),
             "seed": draw(st.integers(0, 10 ** 6)),
             "vkind": draw(st.sampled_from(pr.VERTEX_KINDS))}
 
@@ -88,6 +92,8 @@ def strat_route(draw, tier, holes=False):
 def build(case, machine_case=None):
     from rig.netlist import Net
     from rig.place_and_route import Cores
+    if case.get("core_resource"):
+        Cores = case["core_resource"]
     from rig.place_and_route.constraints import RouteEndpointConstraint
     from rig.routing_table import Routes
     m = machine_case or case["machine"]
@@ -114,6 +120,8 @@ def run_route(case, machine_case=None):
     kwargs = {}
     if case["radius"] is not None:
         kwargs["radius"] = case["radius"]
+    if case.get("core_resource"):
+        kwargs["core_resource"] = case["core_resource"]
     random.seed(case["seed"])
     with sut("route", (MachineHasDisconnectedSubregion,)):
         routes = route(vr, nets, machine, constraints, placements,
